@@ -1,3 +1,7 @@
 import Geo.Props.C10
 open Geo
-#print axioms C10_placeholder
+#print axioms T10_mirror2
+#print axioms T10_mirror_spec
+#print axioms T10_mirror_involution_2d
+#print axioms T10_mirror_involution_3d
+#print axioms T10_is_perpendicular
